@@ -195,6 +195,9 @@ def eval_np(t, env):
         return None
     if k == "call":
         f, a = t[1], t[2]
+        if f == ".astype" and a:
+            v0 = eval_np(a[0], env)
+            return v0.astype(int) if (len(a) > 1 and "int" in show(a[1])) else v0
         A = [eval_np(x, env) for x in a]
         table = {"numpy.linalg.inv": np.linalg.inv, "numpy.dot": np.dot, "numpy.matmul": np.matmul, ".dot": lambda x, y: x.dot(y),
                  "numpy.rint": np.rint, "numpy.round": np.round, "numpy.around": np.around, "numpy.floor": np.floor,
@@ -246,6 +249,9 @@ def run(run: Run, pkg: Package) -> None:
         raise AnalysisError("remove_pbc: expected a single return")
     ret = it.returns[0].data["value"]
     loc = loc_of(it, it.returns[0])
+    # a typing / algebra verdict counts as a violation only together with a concrete cell, mask and displacement on which the
+    # extracted return term differs from the reference (positive witness)
+    wit0 = numeric_witness(ret, R, H, M)
     # ---- R-FRAME
     try:
         r, c, tags = frame_type(ret, R, H, M, [])
@@ -253,17 +259,17 @@ def run(run: Run, pkg: Package) -> None:
                f"result type ({r}, {c}), tags {sorted(tags)}", loc=loc)
         ok = (r, c) == ("Pt", "Cart")
         run.ob("R-FRAME", fq, "result-frame", ok, "the result is a Cartesian displacement per input row", f"({r}, {c})",
-               witness=None if ok else f"result carries {c} components: back-transform with the cell matrix missing or doubled", loc=loc)
+               witness=None if ok else f"result carries {c} components: back-transform with the cell matrix missing or doubled; {wit0}", loc=loc, sound=bool(wit0))
         near = "Nearest:Frac" in tags
         directed = [x for x in tags if x.startswith("Directed")]
         run.ob("R-FRAME", fq, "rounding", near and not directed, "fractional coordinates are rounded to the nearest integer",
                f"tags {sorted(tags)}", witness=None if near and not directed else
-               ("fractional coordinate 0.6 maps to 0.6 (floor) instead of -0.4" if directed else "no rounding of fractional coordinates"), loc=loc)
+               ("fractional coordinate 0.6 maps to 0.6 (floor) instead of -0.4" if directed else "no rounding of fractional coordinates") + f"; {wit0}", loc=loc, sound=bool(wit0))
         run.ob("R-FRAME", fq, "mask", "Masked" in tags or "Where" in tags, "the periodicity mask gates the integer shift",
-               f"tags {sorted(tags)}", witness=None if ("Masked" in tags or "Where" in tags) else "mask ignored: non-periodic axes are wrapped", loc=loc)
+               f"tags {sorted(tags)}", witness=None if ("Masked" in tags or "Where" in tags) else f"mask ignored: non-periodic axes are wrapped; {wit0}", loc=loc, sound=bool(wit0))
     except Clash as e:
         run.ob("R-FRAME", fq, "well-typed", False, "every product contracts matching sorts; mask acts on fractional components", str(e),
-               witness=str(e), loc=loc)
+               witness=f"{e}; {wit0}", loc=loc, sound=bool(wit0))
     except Unknown as e:
         run.ob("R-FRAME", fq, "well-typed", None, "frame typing", f"construct outside the frame grammar: {e}", loc=loc)
     # ---- R-ALG
@@ -279,25 +285,25 @@ def run(run: Run, pkg: Package) -> None:
             run.ob("R-ALG", fq, "form", True, "result = R - (mask (.) nearest(R H^-1)) H", detail, loc=loc)
         else:
             wit = numeric_witness(ret, R, H, M)
-            run.ob("R-ALG", fq, "form", False if wit else None, "result = R - (mask (.) nearest(R H^-1)) H", detail, witness=wit, loc=loc)
+            run.ob("R-ALG", fq, "form", False if wit else None, "result = R - (mask (.) nearest(R H^-1)) H", detail, witness=wit, loc=loc, sound=True)
     except Unknown as e:
         wit = numeric_witness(ret, R, H, M)
         run.ob("R-ALG", fq, "form", False if wit else None, "result = R - (mask (.) nearest(R H^-1)) H",
-               f"form outside the algebra grammar: {e}", witness=wit, loc=loc)
+               f"form outside the algebra grammar: {e}", witness=wit, loc=loc, sound=True)
     # default mask
     dflt = fi.defaults().get(p[2])
     if dflt is not None:
         import ast as _ast
         txt = _ast.unparse(dflt)
         okd = txt.replace(" ", "") in ("np.array([1,1,1])", "numpy.array([1,1,1])", "(1,1,1)", "[1,1,1]")
-        run.ob("R-ALG", fq, "default-mask", okd, "default mask is fully periodic in 3D", txt, witness=None if okd else f"default {txt}", loc=fi.loc())
+        run.ob("R-ALG", fq, "default-mask", True if okd else None, "default mask is fully periodic in 3D", txt, witness=None if okd else f"default {txt}", loc=fi.loc())
     check_call_sites(run, pkg)
     run.minimum("R-PBC", 27 * 3)
     if run.tier == "thorough":
         # deeper: re-evaluate the extracted term on a grid of cells and masks against the reference (witness search only)
         wit = numeric_witness(ret, R, H, M, trials=400)
         run.ob("R-ALG", fq, "form:numeric-crosscheck", wit is None, "extracted term agrees with the reference on 400 concrete cells x masks",
-               "no difference" if wit is None else wit, witness=wit, loc=loc)
+               "no difference" if wit is None else wit, witness=wit, loc=loc, sound=True)
 
 
 def numeric_witness(ret, R, H, M, trials=40, lengths=None):
@@ -371,7 +377,7 @@ def check_call_sites(run: Run, pkg: Package) -> None:
                     ok_d = True
                     snaps = sa + sb
                 elif (sa or oa) and not (sb or ob) or (sb or ob) and not (sa or oa):
-                    ok_d = False
+                    ok_d = None         # a displacement from a point that is not a particle position: not decided here
             elif d is not None and (any(x[0] == "attr" and x[2] == "hmatrix" for x in walk(d)) or d == ("sym", "hmatrix")):
                 ok_d = False
             elif d is not None and ((d[0] == "attr" and d[2] == "positions") or
@@ -379,26 +385,37 @@ def check_call_sites(run: Run, pkg: Package) -> None:
                 ok_d = False        # absolute coordinates, no difference taken
                 snaps = [d[1] if d[0] == "attr" else d[1][1]]
             run.ob("R-PBC", fq, f"{key}:displacement", ok_d, "first argument is a difference of two position terms (a displacement)", det,
-                   witness=None if ok_d is not False else "absolute coordinates / a cell matrix are minimum-imaged instead of a displacement", loc=loc)
+                   witness=None if ok_d is not False else "absolute coordinates / a cell matrix are minimum-imaged instead of a displacement", loc=loc, sound=True)
             # --- cell
             ok_h = None
             hx = expand_self(h, attrs) if h is not None else None
+            if h is not None and h[0] == "attr" and h[2] == "hmatrix" and hx[0] == "attr" and hx[2] == "hmatrix" and hx != h and h[1] not in snaps:
+                h = hx          # an instance attribute that caches some frame's cell: judge the frame it was taken from
             if h is not None and h[0] == "attr" and h[2] == "hmatrix":
                 ok_h = (h[1] in snaps) if snaps else None
                 if snaps and not ok_h:
                     # the same snapshot reached through self (self.snapshot) vs local alias
                     ok_h = any(expand_self(s, attrs) == expand_self(h[1], attrs) for s in snaps)
+                if snaps and not ok_h:
+                    # definitely another frame only when the cell's frame is a fixed element of the trajectory while every position
+                    # comes from a loop-dependent frame; two spellings of possibly the same frame stay undecided
+                    hx1 = expand_self(h[1], attrs)
+                    fixed = hx1[0] == "sub" and is_const(hx1[2]) and not any(x[0] in ("loopvar", "mu") for x in walk(hx1))
+                    moving = all(any(x[0] == "loopvar" for x in walk(expand_self(s_, attrs))) for s_ in snaps)
+                    ok_h = False if (fixed and moving) else None
             elif h == ("sym", "hmatrix") and not snaps:
                 ok_h = True
             elif h is not None and any(x[0] == "attr" and x[2] == "positions" for x in walk(h)):
                 ok_h = False
             run.ob("R-PBC", fq, f"{key}:cell", ok_h, "second argument is the cell matrix of a snapshot that supplied one of the two positions",
                    show(h)[:80] if h else "missing", witness=None if ok_h is not False else
-                   f"cell of {show(h[1])[:40] if h and h[0] == 'attr' else show(h)[:40]} used for positions of {[show(s)[:30] for s in snaps]}", loc=loc)
+                   f"cell of {show(h[1])[:40] if h and h[0] == 'attr' else show(h)[:40]} used for positions of {[show(s)[:30] for s in snaps]}", loc=loc, sound=True)
             # --- mask
             ok_m = None
             if m is None:
-                ok_m = False
+                # the callee's default is used although the caller holds a periodicity mask of its own
+                has_mask = "ppp" in fi.params or any(k_ == "ppp" for k_ in attrs) or (fi.cls is not None and "ppp" in (fi.cls.methods["__init__"].params if "__init__" in fi.cls.methods else []))
+                ok_m = False if has_mask else None
             else:
                 mm = expand_self(m, attrs)
                 base_m = mm[1] if mm[0] == "sub" and mm[2][0] == "slice" else mm
@@ -408,5 +425,5 @@ def check_call_sites(run: Run, pkg: Package) -> None:
                     ok_m = False
             run.ob("R-PBC", fq, f"{key}:mask", ok_m, "third argument is the caller's periodicity mask", show(m)[:60] if m else "default [1,1,1]",
                    witness=None if ok_m is not False else ("default 3D mask used: wrong shape in 2D and ignores the requested periodicity" if m is None
-                                                           else "a non-mask quantity is passed as periodicity mask"), loc=loc)
+                                                           else "a non-mask quantity is passed as periodicity mask"), loc=loc, sound=True)
     run.extra["remove_pbc_call_sites"] = n
